@@ -29,7 +29,7 @@ ID = "C17"
 LEVEL = "fault_enumeration"
 ANCHORS = ["prov.model:ProvDocument.serialize"]
 NAMES = ["plain.out", "with space.out", "ünï-cødé.out", "a#b.out", "x?y=1.out", "semi;colon.out", "c:d.out", "per%20cent.out", "sub/dir.out",
-         "ABS", "trailing.", "file:REL", "dotted..name", "~tilde.out", "FILEURL", "run:1.out", "prov-2.0:out file.out", "http:x.out", "+plus.out", "LINK/../via-symlink.out"]
+         "ABS", "trailing.", "file:REL", "dotted..name", "~tilde.out", "FILEURL", "run:1.out", "prov-2.0:out file.out", "http:x.out", "+plus.out", "LINK/../via-symlink.out", "SYMLINK-TO-FILE"]
 FORMATS = ["json", "xml", "provn", "rdf"]
 _audit = {"on": False, "log": []}
 
@@ -115,6 +115,15 @@ def resolve_name(kind, box):
         return "file:relurl.out", os.path.join(box, "relurl.out")
     if kind == "sub/dir.out":
         os.makedirs(os.path.join(box, "sub"), exist_ok=True)
+    if kind == "SYMLINK-TO-FILE":
+        # the named file is a symbolic link to a regular file kept elsewhere: a failed save must leave what it shows intact
+        os.makedirs(os.path.join(box, "vault"), exist_ok=True)
+        target = os.path.join(box, "vault", "current.out")
+        if not os.path.lexists(os.path.join(box, "latest.out")):
+            with open(target, "wb") as f:
+                f.write(b"previous content that must survive\n" * 40)
+            os.symlink(os.path.join("vault", "current.out"), os.path.join(box, "latest.out"))
+        return "latest.out", os.path.join(box, "latest.out")
     if kind == "LINK/../via-symlink.out":
         # LINK -> store/deep : the operating system resolves LINK/.. to store/, a lexical normalisation would say "."
         os.makedirs(os.path.join(box, "store", "deep"), exist_ok=True)
@@ -278,7 +287,7 @@ def run_inprocess(ctx, case, problems):
         writes = [0]
         with Box(ctx.root) as box:
             arg, dest = resolve_name(case["name"], box.dir)
-            if present:
+            if present or case["name"] == "SYMLINK-TO-FILE":
                 with open(dest, "wb") as f:
                     f.write(PREV)
             before = listing(box.dir, box.tmp)
